@@ -20,6 +20,7 @@ What is compared on the implementation (only what the statement fixes):
   every other context key unchanged; var_context of every variable unchanged; repetition equal.
 """
 import copy
+import os
 import random
 import shutil
 import tempfile
@@ -288,8 +289,10 @@ class Background(object):
 
 
 def run(ctx):
-    # private scratch directory: a concurrent invocation of the same check wipes build/<ID>
-    ctx.workdir = tempfile.mkdtemp(prefix=ctx.pid + "_", dir=core.BUILD)
+    # private scratch directory: a concurrent invocation of the same check must not wipe ours
+    # (core.Ctx makes one itself now; only an old shared build/<ID> is replaced)
+    if os.path.basename(ctx.workdir) == ctx.pid:
+        ctx.workdir = tempfile.mkdtemp(prefix=ctx.pid + "_", dir=core.BUILD)
     try:
         return _run(ctx)
     finally:
